@@ -124,12 +124,15 @@ def run_system(task):
             if c.get("bwd"):
                 order.append(j)
         c_idx = u * L + tau - 1
+        first = [x for x in tf if x[1] == sorted(set(init))]          # information values at the first forward step
+        fv = {x[0]: x[2] for x in first}
+        dominant = c_idx in fv and all(fv[c_idx] > w for j_, w in fv.items() if j_ != c_idx)
         fwd_c = [x for x in tF if x[0] == c_idx]
         bwd_c = [x for x in tB if x[0] == c_idx]
         res.update({"landscape_ok": ok, "init": init, "tf": tf, "tF": tF, "tB": tB, "order": order,
                     "planted_fwd_pass": bool(fwd_c) and all(x[2] for x in fwd_c),
                     "planted_bwd_pass": bool(bwd_c) and all(x[2] for x in bwd_c),
-                    "planted_tested_fwd": bool(fwd_c)})
+                    "planted_tested_fwd": bool(fwd_c), "planted_dominant_first_step": bool(dominant)})
     return res
 
 
@@ -208,6 +211,12 @@ def run(chk):
             if r["planted_fwd_pass"] and r["planted_bwd_pass"] and not r["recovered"]:
                 fail = (f"planted predictor X{r['u']}(t-{r['tau']}) passed its forward and its backward test for target X{r['v']} "
                         f"but the edge X{r['u']}->X{r['v']} lag {r['tau']} is not in the network (edges into X{r['v']}: {r['edges_into_v']})")
+            elif r["method"] == "standard" and not r["planted_tested_fwd"]:
+                fail = (f"standard forward pass never tested the planted predictor X{r['u']}(t-{r['tau']}) for target X{r['v']} "
+                        f"(every candidate must be decided once)")
+            elif r["method"] == "alternative" and r["planted_dominant_first_step"] and not r["planted_tested_fwd"]:
+                fail = (f"planted predictor X{r['u']}(t-{r['tau']}) had strictly the largest information at the first step of the "
+                        f"alternative forward pass for target X{r['v']} but was never tested")
             elif r["recovered"] and not (r["planted_fwd_pass"] and r["planted_bwd_pass"]):
                 fail = (f"edge X{r['u']}->X{r['v']} lag {r['tau']} reported although the planted predictor did not pass both tests")
             cases.append(f"({coq_bool(r['method'] == 'standard')}, {r['n'] * r['L']}%nat, {r['L']}%nat, "
